@@ -776,6 +776,24 @@ impl Real {
                         // one chain (R,[s1,s2,..]) becomes two chains with the same right name: (R,[s1]), (R,[s2,..])
                         if a < n && w.secrets[a].1.len() >= 2 { let (r, c) = w.secrets[a].clone(); w.secrets[a].1.truncate(1); w.secrets.insert(a + 1, (r, c[1..].to_vec())); true } else { false }
                     }).unwrap_or(false),
+                    "split_chain_rev" => num(0).map(|a| {
+                        // (R,[s1,s2,..]) becomes (R,[s2,..]), (R,[s1]): the older part first, the newest secret in a second entry
+                        // of the same name (a reader that merged entries of one name by prepending would rebuild the issued chain)
+                        if a < n && w.secrets[a].1.len() >= 2 { let (r, c) = w.secrets[a].clone(); w.secrets[a].1 = c[1..].to_vec(); w.secrets.insert(a + 1, (r, c[..1].to_vec())); true } else { false }
+                    }).unwrap_or(false),
+                    "split_chain_mid" => num(0).map(|a| {
+                        // split in the middle, older half first
+                        if a < n && w.secrets[a].1.len() >= 2 { let (r, c) = w.secrets[a].clone(); let k = c.len() / 2; w.secrets[a].1 = c[k..].to_vec(); w.secrets.insert(a + 1, (r, c[..k].to_vec())); true } else { false }
+                    }).unwrap_or(false),
+                    "split_chain_far" => num(0).map(|a| {
+                        // the older part stays in place, the newest secret goes to a last entry of the same name
+                        if a < n && w.secrets[a].1.len() >= 2 { let (r, c) = w.secrets[a].clone(); w.secrets[a].1 = c[1..].to_vec(); w.secrets.push((r, c[..1].to_vec())); true } else { false }
+                    }).unwrap_or(false),
+                    "split_chain_app" => num(0).map(|a| {
+                        // in order, but apart: the newest secret stays, the older part goes to a last entry of the same name
+                        if a < n && w.secrets[a].1.len() >= 2 { let (r, c) = w.secrets[a].clone(); w.secrets[a].1.truncate(1); w.secrets.push((r, c[1..].to_vec())); true } else { false }
+                    }).unwrap_or(false),
+                    "dup_secret" => num(0).map(|a| { if a < n { let k = w.secrets[a].1[0].clone(); w.secrets[a].1.insert(0, k); true } else { false } }).unwrap_or(false),
                     "join_chains" => num(0).map(|a| {
                         // two neighbouring chains merged under the name of the first
                         if a + 1 < n { let (_, c2) = w.secrets.remove(a + 1); w.secrets[a].1.extend(c2); true } else { false }
